@@ -28,6 +28,7 @@ Suppressions:
 
 import ast
 from collections.abc import Callable
+from pathlib import Path
 from typing import Any, Protocol, TypeVar
 
 from src.core.base import BaseLintContext
@@ -273,6 +274,32 @@ def resolve_file_path(context: BaseLintContext) -> str:
         File path string, or "unknown" if not available
     """
     return str(context.file_path) if context.file_path else "unknown"
+
+
+def path_in_project(context: BaseLintContext) -> Path | None:
+    """Path of the linted file inside the project, rooted at "/" (e.g. /tests/unit/test_a.py).
+
+    Path heuristics (test-file detection, default ignore lists) must judge the file by where it
+    sits in the project, not by the directories leading to the project or by how the target was
+    spelled on the command line.
+
+    Args:
+        context: Lint context
+
+    Returns:
+        Project-relative path rooted at "/", the path as given when the project root is unknown
+        or the file lies outside it, or None when the context has no file path
+    """
+    if not context.file_path:
+        return None
+    file_path = Path(context.file_path)
+    project_root = get_metadata(context).get("_project_root")
+    if project_root is None:
+        return file_path
+    try:
+        return Path("/") / file_path.resolve().relative_to(Path(project_root).resolve())
+    except (ValueError, OSError):
+        return file_path
 
 
 def is_ignored_path(file_path: str, ignore_patterns: list[str]) -> bool:
